@@ -667,6 +667,11 @@ class NodeList(FastTypedDict):
 
         self.__verified__ = False
 
+        # `find_slots` and `release_slots` are called from application
+        # threads: searching several nodes and book-keeping the last failed
+        # request need to be atomic
+        self.__lock__ = mt.RLock()
+
 
     # --------------------------------------------------------------------------
     #
@@ -738,6 +743,14 @@ class NodeList(FastTypedDict):
     #
     def find_slots(self, rr: RankRequirements, n_slots:int = 1) -> List[Slot]:
 
+        with self.__lock__:
+            return self._find_slots(rr, n_slots)
+
+
+    # --------------------------------------------------------------------------
+    #
+    def _find_slots(self, rr: RankRequirements, n_slots:int = 1) -> List[Slot]:
+
         self._assert_rr(rr, n_slots)
 
         if self.__last_failed_rr__:
@@ -785,6 +798,14 @@ class NodeList(FastTypedDict):
     # --------------------------------------------------------------------------
     #
     def release_slots(self, slots: List[Slot]) -> None:
+
+        with self.__lock__:
+            self._release_slots(slots)
+
+
+    # --------------------------------------------------------------------------
+    #
+    def _release_slots(self, slots: List[Slot]) -> None:
 
         for slot in slots:
 
